@@ -99,6 +99,62 @@ func c08Scenario(di int, nthreads int, fine bool) mc.Scenario {
 	}
 }
 
+// Many executions in flight at one program point: n threads (70, 1100) of a driver are stopped one after the
+// other behind their j-th scheduling point and then finished in turn, for every j up to the longest thread.
+// Whatever the library counts or keeps per schema while a call is inside it is then at its largest.
+func c08PileUpScenario(di int) mc.Scenario {
+	return func(x *mc.X) *mc.Outcome {
+		n := []int{70, 1100}[x.Choose(2, "threads")]
+		j := 1 + x.Choose(48, "stop behind scheduling point")
+		drv := c08drv.Drivers(n)[di]
+		// what a thread returns alone depends on its index through a short period only (inputs are chosen by i%2, i%3, i%4, i%5)
+		alone := make([][]string, 60)
+		for t := range alone {
+			zh.Reset()
+			sh := drv.Setup()
+			zh.Install(x, zh.PoolLIFO, zh.OrderSorted)
+			var out []string
+			sh.Thread(t, &out, nil)
+			alone[t] = out
+			if sh.Cleanup != nil {
+				sh.Cleanup()
+			}
+		}
+		zh.Reset()
+		sh := drv.Setup()
+		zh.Install(x, zh.PoolLIFO, zh.OrderSorted)
+		p := zh.NewPileUp(n, j)
+		outs := make([][]string, n)
+		bodies := make([]func(), n)
+		for t := 0; t < n; t++ {
+			t := t
+			bodies[t] = func() { sh.Thread(t, &outs[t], p.Yield) }
+		}
+		p.Run(bodies)
+		if sh.Cleanup != nil {
+			sh.Cleanup()
+		}
+		zh.Reset()
+		out := &mc.Outcome{Traces: n, Nontrivial: p.MaxInFlight > 1, Sig: fmt.Sprintf("pileup|%s|%d|%d", drv.Name, n, p.MaxInFlight)}
+		out.Sample = map[string]any{"driver": drv.Name, "threads": n, "stopped_behind_point": j, "executions_in_flight": p.MaxInFlight}
+		fail := func(key, what, exp, got string) {
+			x.Note("driver: %s; %d threads each stopped behind its scheduling point %d (%d in flight at once), then finished in turn", drv.Name, n, j, p.MaxInFlight)
+			out.Viol = append(out.Viol, &mc.Violation{Key: key, What: what, Expected: exp, Observed: got})
+		}
+		if p.Err != nil {
+			fail(fmt.Sprintf("C08:panic:d%d", di), fmt.Sprintf("thread %d panicked with %d executions in flight", p.ErrWho, p.MaxInFlight), "no panic", fmt.Sprint(p.Err))
+			return out
+		}
+		for t := range outs {
+			if !eqStrings(outs[t], alone[t%60]) {
+				fail(fmt.Sprintf("C08:result:d%d", di), fmt.Sprintf("thread %d's calls did not return what they return running alone", t), strings.Join(alone[t%60], " || "), strings.Join(outs[t], " || "))
+				return out
+			}
+		}
+		return out
+	}
+}
+
 func c08Bounds(tier string) (coarse, fineDevs, coarse3 int) {
 	if tier == "thorough" {
 		return 3, 1, 2
@@ -109,7 +165,7 @@ func c08Bounds(tier string) (coarse, fineDevs, coarse3 int) {
 func init() {
 	Register(&Prop{
 		ID:    "C08",
-		Rule:  "one execution = one schedule of a closed driver: 10 drivers, 2 threads (thorough: also 3) each performing 1–2 Parse/Validate/Collect operations on SHARED schema objects with per-thread data, destination and options; choice points: which thread runs first, at every pool Get/Put (thorough: also before every library statement) whether to preempt, which thread continues when one finishes, and which free object each pool Get returns; budget = preemptions + non-LIFO pool answers; oracle: every call's full observation equals the same thread run alone on cleared pools, pool-ownership monitor (no object held by two threads, none released twice), schema-owned values unchanged; non-trivial = at least one context switch; distinct = distinct (driver, number of context switches, number of pooled objects handed from one thread to another, observations). Auxiliary: free-running -race pass over the same bodies (sampling, reported separately)",
+		Rule:  "one execution = one schedule of a closed driver: 19 drivers, 2 threads (thorough: also 3) each performing 1–2 Parse/Validate/Collect operations on SHARED schema objects with per-thread data, destination and options; choice points: which thread runs first, at every pool Get/Put (thorough: also before every library statement) whether to preempt, which thread continues when one finishes, and which free object each pool Get returns; budget = preemptions + non-LIFO pool answers; oracle: every call's full observation equals the same thread run alone on cleared pools, pool-ownership monitor (no object held by two threads, none released twice), schema-owned values unchanged; non-trivial = at least one context switch; distinct = distinct (driver, number of context switches, number of pooled objects handed from one thread to another, observations). plus pile-up schedules: 70 and 1100 threads of five drivers, each stopped behind its j-th scheduling point (every j ≤ 48) and then finished in turn — one deterministic schedule per (driver, thread count, j) with up to 1100 executions in flight, same per-thread oracle. Auxiliary: free-running -race pass over the same bodies (sampling, reported separately)",
 		Floor: 5,
 		Bound: func(tier string) string {
 			c, f, c3 := c08Bounds(tier)
@@ -141,6 +197,11 @@ func init() {
 					}
 				}
 			}
+			for i, d := range c08drv.Drivers(2) {
+				if c08PileUpOK[i] {
+					items = append(items, Item{Name: "pile-up/" + d.Name, MaxDevs: -1, Run: c08PileUpScenario(i)})
+				}
+			}
 			if tier == "thorough" {
 				for i, d := range c08drv.Drivers(2) {
 					items = append(items, Item{Name: "fine/2threads/" + d.Name, MaxDevs: f, Run: c08Scenario(i, 2, true)})
@@ -153,3 +214,7 @@ func init() {
 		},
 	})
 }
+
+// drivers whose per-thread inputs have a period dividing 60 (so that "thread t alone" is known from t%60) and
+// whose threads are independent of the thread count
+var c08PileUpOK = map[int]bool{0: true, 1: true, 2: true, 4: true, 5: true}
